@@ -114,6 +114,18 @@ Proof.
   all: try solve [intros h Hh; upd_cases; try reflexivity; exfalso; destruct (Hq _ Hh) as [[Hp|Hp] _]; congruence].
 Qed.
 
+Lemma pc_upd_wake (f : tid -> rthread) t0 w t y x :
+  x <> t -> pc (upd (upd f t0 (set_wake (f t0) w)) t y x) = pc (f x).
+Proof.
+  intros Hne. rewrite upd_other by exact Hne. unfold upd. destruct (Nat.eqb_spec x t0); [subst; reflexivity|reflexivity].
+Qed.
+
+Lemma owner_not_window s t : Inv s -> mtx s = Some t -> in_window (pc (thr s t)) = false -> ~ windowed s.
+Proof.
+  intros HI Hm Hp [w Hw]. pose proof Hw as Hw'. apply in_window_mtx_pc in Hw. apply (i_mtx1 _ HI) in Hw.
+  assert (w = t) by congruence. subst w. congruence.
+Qed.
+
 Lemma subset_nil {A} (l l' : list A) : (forall h, In h l' -> In h l) -> l' <> [] -> l <> [].
 Proof. intros H Hn ->. destruct l' as [|x r]; [tauto|]. apply (H x). left. reflexivity. Qed.
 
@@ -130,7 +142,68 @@ Proof.
   destruct (mtx s) as [u|] eqn:Hm;
     pose proof (i_mtx1 _ HI) as Hm1; pose proof (i_mtx2 _ HI) as Hm2.
   - destruct (Nat.eq_dec u (actor l)) as [Heq|Hne].
-    + admit.
+    + (* the actor owns mtx *)
+      subst u.
+      assert (forall x p, mtx_pc p = true -> pc (thr s x) = p -> x = actor l) as Hown.
+      { intros x p Hp Hx. assert (mtx s = Some x) by (apply Hm1; rewrite Hx; exact Hp). congruence. }
+      pose proof (Hm2 _ Hm) as Hmine.
+      step_cases Hstep; simpl in Hm, Hown, Hmine; thr_simp; try congruence.
+      all: try (rewrite E in Hmine; discriminate Hmine).
+      all: constructor; simpl.
+      all: try solve [pw x Hx t; exfalso; match goal with n : _ <> _ |- _ => apply n end; eapply Hown; [|exact Hx]; reflexivity].
+      all: try match goal with
+        | Hm0 : mem_tid _ _ && _ = true |- _ => apply andb_true_iff in Hm0; destruct Hm0 as [Hm0 _]
+        end.
+      all: try match goal with
+        | Hm0 : mem_tid _ _ = true |- _ => apply mem_tid_In in Hm0; destruct (Hq _ Hm0) as [Hpq Hwq]
+        end.
+      all: try match goal with
+        | Hw0 : wake (thr _ _) = Some WTimeout |- _ => pose proof (Hwk _ _ Hw0) as Hpq
+        end.
+      all: try (assert (pc (thr s t) = LkDefer) as Hpt
+                  by (destruct Hpq as [Hpq|Hpq]; [exact Hpq|rewrite Hpq in Hmine; discriminate Hmine])).
+      (* the environment acts on the owner, who sits at LkDefer *)
+      all: try solve [intros x; unfold upd; destruct (Nat.eqb_spec x t) as [Hxt|Hxt]; simpl; intros Hx; exfalso;
+                      [congruence | apply Hxt; eapply Hown; [|exact Hx]; reflexivity]].
+      all: try solve [intros Hz Hn;
+                      assert (q s <> []) as Hn' by (intros Hqe; rewrite Hqe in Hn; apply Hn; reflexivity);
+                      destruct (Nmain Hz Hn') as [Hw|Hnf];
+                      [exfalso; eapply owner_not_window; eauto; rewrite Hpt; reflexivity | right; nk Hwk]].
+      (* moves inside the window *)
+      all: try solve [intros Hz Hn; left; exists t; simpl; rewrite upd_same; reflexivity].
+      all: try solve [pw x Hx t; [|exfalso; match goal with n : _ <> _ |- _ => apply n end; eapply Hown; [|exact Hx]; reflexivity];
+                      match goal with Hq0 : q _ = _ :: _ |- _ => rewrite Hq0; discriminate end].
+      all: try solve [intros Hz Hn; exfalso; match goal with Hq0 : q _ = [] |- _ => apply Hn; exact Hq0 end].
+      all: try solve [pw x Hx t; [|exfalso; match goal with n : _ <> _ |- _ => apply n end; eapply Hown; [|exact Hx]; reflexivity];
+                      left; assumption].
+      (* notify_one: the woken head is not the actor *)
+      all: try (assert (t0 <> t) as Ht0
+                  by (intros ->; match goal with Hq0 : q _ = _ :: _ |- _ =>
+                        assert (In t (q s)) as Hin by (rewrite Hq0; left; reflexivity);
+                        destruct (i_q _ HI _ Hin) as [[Hp|Hp] _]; rewrite E in Hp; discriminate Hp end)).
+      all: try solve [intros x Hx; exfalso; destruct (Nat.eq_dec x t) as [->|Hxt];
+                      [rewrite upd_same in Hx; simpl in Hx; discriminate Hx
+                      | rewrite pc_upd_wake in Hx by exact Hxt; apply Hxt; eapply Hown; [|exact Hx]; reflexivity]].
+      all: try solve [intros Hz Hn; right; exists t0; simpl; rewrite upd_other by exact Ht0; rewrite upd_same; reflexivity].
+      all: try solve [intros x Hx; destruct (Nat.eq_dec x t) as [->|Hxt];
+                      [right; right; exists t0; simpl; rewrite upd_other by exact Ht0; rewrite upd_same; reflexivity
+                      | exfalso; rewrite pc_upd_wake in Hx by exact Hxt; apply Hxt; eapply Hown; [|exact Hx]; reflexivity]].
+      * (* enqueue *)
+        intros Hz Hn. destruct (Nenq t E) as [H|Hnf]; [tauto|]. right. nk Hwk.
+      * (* deferred unlock *)
+        intros Hz Hn. destruct (Nmain Hz Hn) as [Hw|Hnf]; [|right; nk Hwk].
+        exfalso. eapply owner_not_window; eauto. rewrite E. reflexivity.
+      * (* inner if: a reader at the head *)
+        pw x Hx t; [|exfalso; match goal with n : _ <> _ |- _ => apply n end; eapply Hown; [|exact Hx]; reflexivity].
+        right. left. match goal with Hq0 : q s = ?h :: ?r |- _ => exists h, r end. split; [assumption|].
+        destruct (Nat.eqb_spec t0 t) as [->|_]; [exfalso|assumption].
+        assert (In t (q s)) as Hin by (rewrite E0; left; reflexivity).
+        destruct (i_q _ HI _ Hin) as [[Hp|Hp] _]; rewrite E in Hp; discriminate Hp.
+      * (* loop exit on a writer *)
+        intros Hz Hn. destruct (Nwhile t E) as [H|[[h [r [H1 H2]]]|Hnf]].
+        -- congruence.
+        -- try rewrite E0 in H1. inversion H1; subst. congruence.
+        -- right. nk Hwk.
     + (* another thread owns mtx *)
       destruct (step_under_foreign_mtx s l s' u HI Hm Hne Hg Hstep) as [Hst [Hmt [Hu [Hsub [Hwin [Hnot Hpcs]]]]]].
       assert (forall x p, in_window p = true \/ p = LkEnq -> pc (thr s' x) = p -> x = u /\ pc (thr s u) = p) as Hown.
@@ -156,5 +229,52 @@ Proof.
         destruct Hwin as [Hqq _]; [rewrite Hp; reflexivity|]. rewrite Hqq. eapply Nnotr; eauto.
       * intros x Hx. destruct (Hown x LkEnq (or_intror eq_refl) Hx) as [-> Hp].
         rewrite Hst. destruct (Nenq u Hp) as [H|H]; [left; exact H|right; apply Hnot; exact H].
-  - admit.
-Abort.
+  - (* mtx is free: nobody is at a pc that owns it *)
+    assert (forall x p, mtx_pc p = true -> pc (thr s x) = p -> False) as Hfree.
+    { intros x p Hp Hx. assert (mtx s = Some x) by (apply Hm1; rewrite Hx; exact Hp). congruence. }
+    assert (~ windowed s) as Hnw by (apply window_closed_no_window; assumption).
+    step_cases Hstep; thr_simp.
+    all: try (exfalso; eapply (Hfree t); [|exact E]; reflexivity).
+    all: constructor; simpl.
+    all: try solve [pw x Hx t; exfalso; eapply (Hfree x); [|exact Hx]; reflexivity].
+    all: try match goal with
+      | Hm0 : mem_tid _ _ && _ = true |- _ => apply andb_true_iff in Hm0; destruct Hm0 as [Hm0 _]
+      end.
+    all: try match goal with
+      | Hm0 : mem_tid _ _ = true |- _ => apply mem_tid_In in Hm0; destruct (Hq _ Hm0) as [Hpq Hwq]
+      end.
+    (* st and q unchanged (or q shrinks) *)
+    all: try solve [intros Hz Hn; destruct (Nmain Hz Hn) as [Hw|Hnf]; [tauto|right; nk Hwk]].
+    all: try solve [intros Hz Hn; assert (q s <> []) as Hn' by (intros Hqe; rewrite Hqe in Hn; apply Hn; reflexivity);
+                    destruct (Nmain Hz Hn') as [Hw|Hnf]; [tauto|right; nk Hwk]].
+    (* tracked pcs: the actor's pc did not change and is not one of them *)
+    all: try solve [intros x; unfold upd; destruct (Nat.eqb_spec x t) as [Hxt|Hxt]; simpl; intros Hx;
+                    exfalso; [rewrite Hx in *; destruct Hpq; discriminate | eapply (Hfree x); [|exact Hx]; reflexivity]].
+    (* acquisitions: st' <> 0 *)
+    all: try match goal with
+      | Hc : negb (is_nil _) || conflict _ _ = false |- _ => apply orb_false_iff in Hc; destruct Hc as [_ Hc]
+      end.
+    all: try solve [intros Hz Hn; exfalso;
+                    match goal with
+                    | Hc : conflict ?m ?x = false, Hr : in_range ?x = true |- _ =>
+                        destruct (excl_acq x (holders s) t m (i_excl _ HI) (i_rng _ HI) Hr Hc) as [_ [_ Ha3]]; tauto
+                    end].
+    (* a notified waiter finds the lock taken *)
+    all: try solve [intros Hz Hn; exfalso; eapply conflict_nonzero; eauto].
+    all: try solve [pw x Hx t; [left; eapply conflict_nonzero; eauto | exfalso; eapply (Hfree x); [|exact Hx]; reflexivity]].
+    (* unlock *)
+    all: try solve [intros Hz Hn; left; exists t; simpl; rewrite upd_same; reflexivity].
+    all: try solve [pw x Hx t; [|exfalso; eapply (Hfree x); [|exact Hx]; reflexivity];
+                    match goal with Hc : (_ =? 0) && negb (is_nil (q ?s0)) = true |- _ =>
+                      apply andb_true_iff in Hc; destruct Hc as [_ Hc]; destruct (q s0); [discriminate Hc|discriminate] end].
+    all: try solve [intros Hz Hn; exfalso;
+                    match goal with Hc : (_ =? 0) && negb (is_nil (q ?s0)) = false |- _ =>
+                      simpl in Hc; rewrite Hz in Hc; simpl in Hc; destruct (q s0); [tauto|discriminate Hc] end].
+    all: try solve [intros x; unfold upd; destruct (Nat.eqb_spec x t) as [Hxt|Hxt]; simpl; intros Hx;
+                    exfalso; [eapply (Hfree t); [|exact Hx]; reflexivity | eapply (Hfree x); [|exact Hx]; reflexivity]].
+    (* lock() decides to wait *)
+    pw x Hx t; [|exfalso; eapply (Hfree x); [|exact Hx]; reflexivity].
+    apply orb_true_iff in E1. destruct (Z.eq_dec (st s) 0) as [Hz|Hz]; [|left; exact Hz].
+    destruct E1 as [Hc|Hc]; [|exfalso; eapply conflict_nonzero; eauto].
+    right. destruct (Nmain Hz) as [Hw|Hnf]; [destruct (q s); [discriminate Hc|discriminate]|tauto|nk Hwk].
+Qed.
